@@ -31,6 +31,8 @@ type c19Stmt struct {
 }
 
 type c19Stream struct {
+	EPN    int       `json:"epn,omitempty"` // entries_per_node (default 4096)
+	SameEP bool      `json:"same_endpoint,omitempty"`
 	Name   string    `json:"name"`
 	Prefix string    `json:"prefix"`
 	Clock  int       `json:"clock"`
@@ -40,10 +42,10 @@ type c19Stream struct {
 // c19ShortStreams are the quick-tier streams for the shared prefix (fewer statements, same attribute mix).
 func c19ShortStreams() []c19Stream {
 	a := c19Stream{Name: "a", Prefix: "shared", Clock: 1000, Steps: []c19Stmt{
-		{Op: "open"}, {Op: "set-write-time", Arg: 5000}, {Op: "insert", Arg: 1}, {Op: "read-conn"}, {Op: "insert", Arg: 2}, {Op: "times"},
+		{Op: "open"}, {Op: "set-write-time", Arg: 5000}, {Op: "insert", Arg: 1}, {Op: "read-conn"}, {Op: "insert", Arg: 2}, {Op: "version"}, {Op: "times"},
 	}}
 	b := c19Stream{Name: "b", Prefix: "shared", Clock: 2000, Steps: []c19Stmt{
-		{Op: "open"}, {Op: "set-write-time", Arg: 6000}, {Op: "insert", Arg: 11}, {Op: "set-deadline-past"}, {Op: "insert", Arg: 12},
+		{Op: "open"}, {Op: "dup-name"}, {Op: "set-write-time", Arg: 6000}, {Op: "insert", Arg: 11}, {Op: "set-deadline-past"}, {Op: "insert", Arg: 12},
 		{Op: "clear-deadline"}, {Op: "refresh"}, {Op: "select-all"}, {Op: "times"},
 	}}
 	return []c19Stream{a, b}
@@ -58,10 +60,10 @@ func c19Streams(shared bool, n int) []c19Stream {
 	}
 	a := c19Stream{Name: "a", Prefix: pfx(0), Clock: 1000, Steps: []c19Stmt{
 		{Op: "open"}, {Op: "set-write-time", Arg: 5000}, {Op: "insert", Arg: 1}, {Op: "set-deadline-future"},
-		{Op: "insert", Arg: 2}, {Op: "read-conn"}, {Op: "update", Arg: 1}, {Op: "select"}, {Op: "clear-write-time"}, {Op: "insert", Arg: 3}, {Op: "times"},
+		{Op: "insert", Arg: 2}, {Op: "read-conn"}, {Op: "update", Arg: 1}, {Op: "select"}, {Op: "version"}, {Op: "clear-write-time"}, {Op: "insert", Arg: 3}, {Op: "times"},
 	}}
 	b := c19Stream{Name: "b", Prefix: pfx(1), Clock: 2000, Steps: []c19Stmt{
-		{Op: "open"}, {Op: "set-write-time", Arg: 6000}, {Op: "insert", Arg: 11}, {Op: "set-deadline-past"},
+		{Op: "open"}, {Op: "dup-name"}, {Op: "set-write-time", Arg: 6000}, {Op: "insert", Arg: 11}, {Op: "set-deadline-past"},
 		{Op: "insert", Arg: 12}, {Op: "read-conn"}, {Op: "clear-deadline"}, {Op: "insert", Arg: 13}, {Op: "refresh"}, {Op: "select"}, {Op: "select-all"}, {Op: "times"},
 	}}
 	if !shared {
@@ -78,7 +80,20 @@ type c19Case struct {
 	Shared bool `json:"shared"`
 	N      int  `json:"n"`
 	Short  bool `json:"short,omitempty"`
+	// Nodes: two connections cold-read one pre-populated multi-level table; node requests are scheduling
+	// points too, so two connections can be in the middle of fetching the same node. Nothing is written, so
+	// each connection's observations must equal its solo run, and neither may wait for the other.
+	Nodes bool `json:"nodes,omitempty"`
 }
+
+func c19NodeStreams() []c19Stream {
+	a := c19Stream{Name: "a", Prefix: "shared", EPN: 2, SameEP: true, Clock: 1000, Steps: []c19Stmt{{Op: "open"}, {Op: "select-all"}, {Op: "select"}}}
+	b := c19Stream{Name: "b", Prefix: "shared", EPN: 2, SameEP: true, Clock: 2000, Steps: []c19Stmt{{Op: "open"}, {Op: "set-deadline-past"}, {Op: "select-all"}, {Op: "clear-deadline"}, {Op: "select-all"}}}
+	return []c19Stream{a, b}
+}
+
+// c19NodeMode is set by the worker for a Nodes case (a worker process runs one case at a time).
+var c19NodeMode bool
 
 func init() {
 	All["C19"] = &Check{Level: "model_checking", Run: c19Run}
@@ -100,6 +115,7 @@ func c19Run(r *engine.Run) int {
 	} else {
 		cases = append(cases, engine.J(c19Case{Shared: false, N: 2}), engine.J(c19Case{Shared: true, N: 2, Short: true}))
 	}
+	cases = append(cases, engine.J(c19Case{Shared: true, N: 2, Nodes: true}))
 	engine.CaseTimeout = 45 * time.Minute // these cases run a whole schedule search under their own time budget
 	engine.Map("c19", cases, func(i int, c json.RawMessage, res *engine.Result) {
 		r.Add("c19", c, res)
@@ -133,6 +149,10 @@ func c19Worker(raw json.RawMessage) *engine.Result {
 	if c.Short {
 		streams = c19ShortStreams()
 	}
+	c19NodeMode = c.Nodes
+	if c.Nodes {
+		streams = c19NodeStreams()
+	}
 	// solo runs
 	solo := map[string][]string{}
 	for _, st := range streams {
@@ -144,6 +164,7 @@ func c19Worker(raw json.RawMessage) *engine.Result {
 	outcomes := map[string]bool{}
 	var sample []string
 	var last []int
+	stuck := false
 	mk := func(choices []int) *engine.Sched {
 		s, vec := c19Build(streams, choices)
 		c19Vecs[s] = vec
@@ -160,7 +181,9 @@ func c19Worker(raw json.RawMessage) *engine.Result {
 		}
 		trace := func() string { return strings.Join(s.Labels, "\n    ") }
 		if s.Deadlock {
-			res.Violate("deadlock", "no connection can make progress (shared prefix: %v)\n    %s", c.Shared, trace())
+			res.Violate("deadlock", "connection %s was given the turn and neither finished nor reached its next request while the other connections were parked before theirs: it waits for another connection (shared prefix: %v)\n    %s", s.Stuck, c.Shared, trace())
+			res.Poisoned, engine.Poisoned = true, true // goroutines of this execution are stuck for good
+			stuck = true
 			return
 		}
 		if n, p := s.Panicked(); p != nil {
@@ -172,7 +195,7 @@ func c19Worker(raw json.RawMessage) *engine.Result {
 		for _, st := range streams {
 			got := *vec[st.Name]
 			all = append(all, st.Name+"="+strings.Join(got, ","))
-			if !c.Shared {
+			if !c.Shared || c.Nodes {
 				if strings.Join(got, "\n") != strings.Join(solo[st.Name], "\n") {
 					d := firstDiff(solo[st.Name], got)
 					res.Violate("cross-talk:"+strings.SplitN(d, " ", 2)[0], "connection %s on its own prefix observes something else than in its solo run: %s\n  solo:        %v\n  interleaved: %v\n    %s", st.Name, d, solo[st.Name], got, trace())
@@ -186,7 +209,7 @@ func c19Worker(raw json.RawMessage) *engine.Result {
 				}
 			}
 		}
-		if c.Shared {
+		if c.Shared && !c.Nodes {
 			// final merged rows = all accepted inserts
 			w := s.W
 			w.ClockFor = nil
@@ -219,6 +242,20 @@ func c19Worker(raw json.RawMessage) *engine.Result {
 		if len(s.W.B.Broken) > 0 {
 			res.Violate("store-invariant", "%v", s.W.B.Broken)
 		}
+		// the holder connection took no part: its table must still be there, by name too, and close cleanly
+		if hold := s.W.Lookup("hold"); hold != nil {
+			s.W.ClockFor = nil
+			rows, err := hold.Query("select a from {T}")
+			if err != nil || strings.Join(rows, ",") != "i777" {
+				res.Violate("cross-talk:bystander-rows", "the bystander connection reads %v (err %v) after the others ran\n    %s", rows, err, trace())
+			}
+			if _, err := hold.Version(); err != nil {
+				res.Violate("cross-talk:bystander-by-name", "s3db_version on the bystander connection's own table fails after the others ran: %v\n    %s", err, trace())
+				res.Poisoned = true // closing that connection would panic inside SQLite
+				engine.Poisoned = true
+				return
+			}
+		}
 		outcomes[strings.Join(all, " | ")] = true
 		if sample == nil && s.Preemptions(len(s.Taken)) >= 3 {
 			sample = append([]string{}, s.Labels...)
@@ -226,9 +263,9 @@ func c19Worker(raw json.RawMessage) *engine.Result {
 		s.W.Close()
 	}
 	deadline := time.Now().Add(10 * time.Minute)
-	execs, pruned, states, complete := engine.Explore(mk, check, -1, true, func() bool { return time.Now().After(deadline) })
+	execs, pruned, states, complete := engine.Explore(mk, check, -1, true, func() bool { return stuck || time.Now().After(deadline) })
 	// determinism: replay the last schedule twice
-	if last != nil {
+	if last != nil && !stuck {
 		var t []string
 		for i := 0; i < 2; i++ {
 			s, vec := c19Build(streams, last)
@@ -278,12 +315,30 @@ func c19Build(streams []c19Stream, choices []int) (*engine.Sched, map[string]*[]
 	w.SetClock(engine.T(100))
 	s := &engine.Sched{W: w, Choices: choices}
 	vecs := map[string]*[]string{}
+	// a connection outside the schedule that owns a table before anything else runs (target of "dup-name")
+	hold := w.NewClient("hold")
+	must(hold.Create(engine.TableOpts{Prefix: "hold", EPN: 4096}))
+	must(hold.Exec("insert into {T} values(777,'hold',0)"))
+	if c19NodeMode {
+		// a multi-level table both connections will read cold; every request is a scheduling point
+		seed := w.NewClient("seed")
+		must(seed.Create(engine.TableOpts{Prefix: "shared", EPN: 2}))
+		must(seed.Exec("begin"))
+		for k := 1; k <= 8; k++ {
+			must(seed.Exec("insert into {T} values(?,?,?)", k, "seed", k))
+		}
+		must(seed.Exec("commit"))
+		seed.Close()
+		s.Visible = func(*engine.Req) bool { return true }
+		s.Stall = 2 * time.Minute
+	}
 	for _, st := range streams {
 		st := st
 		vec := &[]string{}
 		vecs[st.Name] = vec
 		cl := &engine.SchedClient{Name: st.Name, Clock: &engine.Clock{}}
 		cl.Clock.Set(engine.T(st.Clock))
+		cl.OnGrant = func(string) { w.SetActive(st.Name) } // a connection resumed in the middle of a statement
 		cl.Run = func(s *engine.Sched, me *engine.SchedClient) {
 			c19Body(w, st, func(label string) { s.Boundary(me, label) }, func(o string) {
 				*vec = append(*vec, o)
@@ -299,6 +354,10 @@ func c19Build(streams []c19Stream, choices []int) (*engine.Sched, map[string]*[]
 func c19Body(w *engine.World, st c19Stream, boundary func(string), obs func(string)) {
 	var x *engine.Client
 	opts := engine.TableOpts{Prefix: st.Prefix, EPN: 4096}
+	if st.EPN > 0 {
+		opts.EPN = st.EPN
+	}
+	opts.SharedEndpoint = st.SameEP
 	errs := func(err error) string {
 		if err != nil {
 			return "error"
@@ -331,6 +390,20 @@ func c19Body(w *engine.World, st c19Stream, boundary func(string), obs func(stri
 			obs("commit " + errs(x.Exec("commit")))
 		case "refresh":
 			obs("refresh " + errs(x.Refresh()))
+		case "version":
+			// by-name access to the connection's own table through the process-wide table registry
+			_, err := x.Version()
+			obs("version " + errs(err))
+		case "dup-name":
+			// CREATE with a table name that another connection of the process already uses (the pre-opened
+			// holder): must be refused, and must leave the holder's table alone (checked after the run)
+			hold := w.Lookup("hold")
+			err := fmt.Errorf("no holder")
+			if hold != nil {
+				q := x.CreateSQL(engine.TableOpts{Prefix: "dup_" + st.Name, EPN: 4096})
+				_, err = x.DB.Exec(strings.ReplaceAll(q, "{T}", hold.Tab))
+			}
+			obs("dup-name " + errs(err))
 		case "vacuum":
 			_, err := x.Vacuum(engine.T(50))
 			obs("vacuum " + errs(err))
@@ -444,6 +517,8 @@ func RaceBody(seed int64) int {
 	w.ClockOff()
 	streams := append(c19Streams(false, 3), c19Streams(true, 2)...)
 	streams[3].Name, streams[4].Name = "d", "e"
+	hold := w.NewClient("hold") // target of the duplicate-name attempts
+	must(hold.Create(engine.TableOpts{Prefix: "hold", EPN: 4096}))
 	// one connection on the lazily created in-memory bucket of the extension itself
 	var wg sync.WaitGroup
 	fail := make(chan string, 16)
